@@ -341,5 +341,65 @@ func c11(r *mon.Run) {
 				t.Count("random: no error raised")
 			}
 		}}
-	r.Exec(w, late, rnd)
+	// a by-expression call whose key expression itself makes a by-expression call: the outer call fails because the
+	// keys it gets are of two kinds (or of a kind that is no key) at one position only - first, second, middle,
+	// last but one, last - while every inner call succeeds; and the other way round (an inner call fails for one
+	// element only). Whatever a by-function keeps while it runs belongs to that one call.
+	outers := []string{"sort_by", "max_by", "min_by"}
+	inners := []func() *gen.Expr{
+		func() *gen.Expr { return gen.Chain(gen.Func("sort_by", gen.Field("m"), gen.ExpRef(gen.Field("k"))), gen.StIndex(0), gen.StField("k")) },
+		func() *gen.Expr { return gen.Chain(gen.Func("max_by", gen.Field("m"), gen.ExpRef(gen.Field("k"))), gen.StField("k")) },
+		func() *gen.Expr { return gen.Chain(gen.Func("min_by", gen.Field("m"), gen.ExpRef(gen.Field("k"))), gen.StField("k")) },
+		func() *gen.Expr { return gen.Chain(gen.Func("map", gen.ExpRef(gen.Field("k")), gen.Field("m")), gen.StIndex(-1)) },
+		func() *gen.Expr { return gen.Chain(gen.Func("sort", gen.Chain(gen.Field("m"), gen.StListStar(), gen.StField("k"))), gen.StIndex(0)) },
+		func() *gen.Expr { return gen.Func("max", gen.Chain(gen.Field("m"), gen.StListStar(), gen.StField("k"))) },
+	}
+	nlens := []int{2, 3, 4, 5, 8, 20}
+	const nposs, nbads = 6, 4
+	nested := mon.Workload{Name: "by-functions-nested-in-by-function-keys", N: len(outers) * len(inners) * len(nlens) * nposs * nbads, Batch: 500,
+		Do: func(i int, t *mon.Tally) {
+			k := i
+			outer := outers[k%len(outers)]
+			k /= len(outers)
+			inner := inners[k%len(inners)]()
+			k /= len(inners)
+			n := nlens[k%len(nlens)]
+			k /= len(nlens)
+			pos := []int{-1, 0, 1, n / 2, n - 2, n - 1}[k%nposs]
+			bad := k / nposs
+			groups := make([]interface{}, n)
+			for g := range groups {
+				k1, k2 := interface{}(float64((g*7+3)%n)), interface{}(float64((g*7+3)%n+n))
+				if g == pos {
+					switch bad {
+					case 0: // both keys of this group are strings: its inner call succeeds, the outer keys are of two kinds
+						k1, k2 = "2", "3"
+					case 1: // null keys: the inner call fails for this group only
+						k1, k2 = nil, nil
+					case 2: // keys of two kinds inside the group: the inner call fails for this group only
+						k2 = "x"
+					default: // arrays as keys
+						k1, k2 = []interface{}{float64(1)}, []interface{}{float64(2)}
+					}
+				}
+				groups[g] = map[string]interface{}{"m": []interface{}{map[string]interface{}{"k": k2}, map[string]interface{}{"k": k1}}, "g": float64(g)}
+			}
+			doc := map[string]interface{}{"groups": groups}
+			var tree *gen.Expr = gen.Func(outer, gen.Field("groups"), gen.ExpRef(inner))
+			switch i % 3 {
+			case 1:
+				tree = gen.Func("length", gen.Func("to_array", tree))
+			case 2:
+				tree = gen.MultiList(tree, gen.Field("missing"))
+			}
+			cx := &caseCtx{r, t, "by-functions-nested-in-by-function-keys", i}
+			res, _, _ := cx.runBoth(tree, gen.Spell(tree), doc)
+			t.NontrivialDistinct(1)
+			if isErr(res) {
+				t.Count("nested by-functions: error expected")
+			} else {
+				t.Count("nested by-functions: value expected")
+			}
+		}}
+	r.Exec(w, late, rnd, nested)
 }
